@@ -496,7 +496,8 @@ Definition rt_reach (c h : bname) : option (list parg) :=
   | B_list, B_t_Sized | B_tuple, B_t_Sized | B_set, B_t_Sized | B_frozenset, B_t_Sized | B_dict, B_t_Sized
   | B_str, B_t_Sized | B_bytes, B_t_Sized | B_bytearray, B_t_Sized => Some []
   | B_type, B_type => Some [PIdx 0]
-  | B_type, B_t_Callable | B_t_Callable, B_t_Callable => Some [PEmpty; PEmpty]
+  | B_type, B_t_Callable => Some [PEmpty; PEmpty]
+  | B_t_Callable, B_t_Callable => Some [PIdx 0; PIdx 1]
   | _, _ => None
   end
   end.
@@ -746,10 +747,12 @@ Definition btable_ok (tb : table) : bool :=
        | None => negb (is_protocol tb (CB h))
                  || negb (protocol_match tb (inst0 (CB c)) (CB h))
        end) heads) vclasses
-  (* S4: every protocol head requires a builtin attribute that neither object nor type provides *)
+  (* S4: every protocol head requires a builtin attribute that object does not provide, and (unless a class
+     object matches it outright) that type does not provide either *)
   && forallb (fun h => negb (is_protocol tb (CB h)) ||
-       existsb (fun a => is_AB a && negb (amem a (attrs tb (CB B_object))) && negb (amem a (attrs tb (CB B_type))))
-               (pattrs tb (CB h))) heads
+       existsb (fun a => is_AB a && negb (amem a (attrs tb (CB B_object)))) (pattrs tb (CB h))) heads
+  && forallb (fun h => negb (is_protocol tb (CB h)) || cmem (CB h) (bt_class_accept (t_b tb)) ||
+       existsb (fun a => is_AB a && negb (amem a (attrs tb (CB B_type)))) (pattrs tb (CB h))) heads
   (* S5: builtin attribute lists only name builtin attributes *)
   && forallb (fun c => forallb is_AB (attrs tb (CB c))) (B_object :: vclasses)
   && forallb (fun h => Nat.eqb (arity tb (CB h)) (head_arity h) || bname_beq h B_t_Callable) heads
